@@ -20,7 +20,10 @@ STEPLOG = open(steplog_path, "w")
 TMPDIR = tempfile.mkdtemp(prefix="xrlv.c14.", dir=os.environ.get("VERIF_TMP") or "/var/tmp")
 N_NEW = H.val.get("N_NEW_CRYSTAL", 10)
 
-NAME = hs.text(alphabet="ABCDEFGHIJKLMNOPQRSTUVWXYZabcdefghijklmnopqrstuvwxyz0123456789_", min_size=1, max_size=20)
+# random names, and names the built-in collection happens to know: a user-owned collection has nothing to do with it, whatever its state
+NAME = hs.one_of(hs.text(alphabet="ABCDEFGHIJKLMNOPQRSTUVWXYZabcdefghijklmnopqrstuvwxyz0123456789_", min_size=1, max_size=20),
+                 hs.text(alphabet="ABCDEFGHIJKLMNOPQRSTUVWXYZabcdefghijklmnopqrstuvwxyz0123456789_", min_size=1, max_size=20),
+                 hs.sampled_from(["Si", "Diamond", "Graphite", "Ge", "AlphaQuartz", "LiF"]))
 LONGNAME = hs.tuples(hs.sampled_from(["Langasite_La3Ga5SiO14", "ABCDEFGHIJKLMNOPQRSTUVWXYZ", "x" * 24]), hs.text(alphabet="ABCab_12", min_size=1, max_size=4)).map(lambda t: t[0] + t[1])
 # numbers carry at most 6 decimals: the documented file format is line oriented with short lines (the reader takes 99 characters per line)
 FLT = hs.floats(0.5, 40.0).map(lambda x: round(x, 6))
@@ -53,6 +56,16 @@ def make_struct(name, cell, atoms):
     return cs
 
 
+def _ws(text, key):
+    """the format is whitespace separated: blanks, tabs and runs of both are the same thing.  Deterministic variation per crystal name."""
+    k = sum(key.encode()) % 4
+    if k == 0:
+        return text
+    sep = ("\t", "  ", " \t ")[k - 1]
+    head, nl, rest = text.partition("\n")
+    return text.replace(" ", sep) if not rest else text
+
+
 def file_text(crystals, corruption=None, where=0):
     """crystals: [(name, cell, atoms)].  corruption applied to crystals[where]"""
     out = ["#F generated\n", "#C comment line\n", "\n"]
@@ -64,7 +77,7 @@ def file_text(crystals, corruption=None, where=0):
             if c == "short-ucell":
                 out.append("#UCELL %r %r %r %r %r\n" % tuple(cell[:5]))
             else:
-                out.append("#UCELL %r %r %r %r %r %r\n" % tuple(cell))
+                out.append(_ws("#UCELL %r %r %r %r %r %r\n" % tuple(cell), name))
         if c == "double-ucell":
             out.append("#UCELL %r %r %r %r %r %r\n" % tuple(cell))
         out.append("#UTEMP 298\n")
@@ -76,7 +89,7 @@ def file_text(crystals, corruption=None, where=0):
             if c == "bad-atom-row" and j == len(atoms) - 1:
                 out.append("%d %r abc %r %r\n" % (z, fr, y, zz))
             else:
-                out.append("%d %r %r %r %r\n" % (z, fr, x, y, zz))
+                out.append(_ws("%d %r %r %r %r\n" % (z, fr, x, y, zz), name))
         if c == "bad-atom-row" and not atoms:
             out.append("14 1.0 abc 0.5 0.5\n")
     out.append("#EOF\n")
